@@ -25,6 +25,10 @@ P = {
          'Theorems for all graphs (incl. shared instances), all skip outcome tables, all roots: the registered list is exactly the walked modules that are leaves, linear or conv2d (linear first), with all parameters requiring gradients and neither qualified name nor class name matched; every module instance occurs at most once in the walk and is registered at most once; exactly the registered modules get one forward-pre and one backward hook. Tie: random torch.nn trees (containers, shared instances, subclasses, unsupported/parameter-free/frozen leaves, None children, bare-leaf root, GPT-NeoX class-name variant) x random pattern lists; named_modules order, registered (name, module, kind) and hook counts of every module compared with the extracted model; independent oracle per the property text.',
          'Coq kernel; extraction + driver; re.search outcomes are inputs (regex engine is an oracle); completeness of the walk w.r.t. reachability is not proved (compared with torch on every tree); DeepSpeed stand-in for the GPT-NeoX import. Closed under the global context.',
          'DESIGN.md §4 C16'),
+ 'C08': (True, 'Coq proof of the bucket state machine (conservation by occurrence counting, capacity/key/dtype invariants over arbitrary operation sequences) and of value equivalence (slice of the reduced fused buffer = reduction of the tensor) + correspondence of TorchDistributedCommunicator under simdist',
+         'Theorems for all operation sequences, capacities and group mixtures: every added tensor is pending or in exactly one emitted fused allreduce (with multiplicity), nothing is pending and no bucket open after a flush, every fused allreduce is non-empty, holds tensors of one group key and one dtype and is within the capacity unless it is a single tensor; for any rank set and any values of the advertised lengths the slice [offset, offset+numel) of the elementwise-reduced fused buffer equals the elementwise reduction of that tensor. Tie: random tensor sequences over world / halves / two distinct equal-size groups sharing a rank / singleton, 5 capacity regimes, average and symmetric flags, mixed dtypes, several fill/flush cycles, 4 schedule policies: every future compared bit-for-bit (value, shape, dtype) with the unbucketed allreduce and with exact integer sums; simdist log of fused allreduces (group, element count, order) compared with the extracted model.',
+         'Coq kernel; extraction + driver; simdist; flatten/unflatten modelled as concatenation/slicing; packing by C14; int(cap_mb*1e6) read from the communicator. Model mirrors the code after fixes D4 and D8. Closed under the global context.',
+         'DESIGN.md §4 C08'),
  'C12': (True, 'Coq proof of the 3-D coordinate algebra (rank <-> coordinates, groups by coordinates, unique intersections) for all P, D, M and of the stage greedy via the C17 relation + exhaustive small-scope correspondence for every rank',
          'Theorems for all D, M >= 1 (and P), all ranks, all cost maps: rank <-> (pipe, data, model) bijection; data/model/stage groups characterised by coordinates; every accepted inverse assignment (any tie-break) puts a layer on one rank of the stage by the least-loaded rule in non-increasing (cost, name) order with the balance bound; factor worker = unique rank in my model-parallel group and the inverse worker data-parallel group; gradient source = unique rank in my data-parallel group among the inverse worker model-parallel peers, same shard; gradient workers = exactly those peers; the reused peer group depends only on (D, M); after the repair of D5 every rank issues the same new_group sequence (old trace refuted for P=D=M=2). Tie: GPTNeoXAssignment built for every rank of every topology with P*D*M <= 24 (64 thorough) over the DeepSpeed topology stand-in with a new_group recorder; all queries compared with the extracted model, inverse assignment checked by neox_ok_b and for equality across a stage; independent oracle.',
          'Coq kernel; extraction + driver; DeepSpeed topology stand-in (modelled, not verified); integer costs; names mapped to string-order ranks. Closed under the global context.',
